@@ -258,6 +258,9 @@ def check_function(function, setup, call, clauses, *, mode, label="", bounded=Fa
                         rep = replay(ns, v.model, cl.name, p)
                     except Exception as e:
                         rep = {"confirmed": None, "error": f"{type(e).__name__}: {e}"}
+                elif mode == "N":
+                    # the harness itself ran on real NumPy/SciPy with concrete inputs: the labelled case is the failing input
+                    rep = {"confirmed": True, "failing_case": label, "native": True}
                 model = {k: str(val) for k, val in (v.model or {}).items()}
                 uf = any(n in str(goal) for n in UNINTERPRETED_RELATIONS)
                 if rep is not None and rep.get("confirmed") is False and uf:
